@@ -1066,3 +1066,120 @@ FAMILIES = [
                                               'stdout-redirected']},
            case_timeout=60, timeout_is_violation=True),
 ]
+
+
+# -------------------------------------------------------------- connect ---
+#
+# The pending operation is the connect itself: the future that
+# asyncssh.connect() / connect_reverse() / get_server_host_key() await.
+# While the handshake is in progress the connection ends in every way -
+# also by the client's own owner, which holds the connection object from
+# connection_made() on (a timer, a supervisor, an auth callback calling
+# conn.abort() or conn.close()).  The future must complete or fail.
+
+def run_connect(case) -> CaseResult:
+    log: List[Any] = []
+    harness = memwire.Harness()
+    chunks = case['chunks']
+    chunker = itertools.cycle(chunks) if chunks else None
+
+    class Server(Owner, memwire.PwServer):
+        def __init__(self):
+            Owner.__init__(self, log, 'S')
+
+    copts: Dict[str, Any] = {'client_factory': lambda: _Client(log)}
+
+    if case['auth'] == 'wrong-password':
+        copts['password'] = 'not-the-password'
+
+    pair = Pair({'server_factory': Server}, copts, h=harness)
+    h = harness
+    term = case['term']
+    labels = {'term:' + term[0], 'auth:' + case['auth']}
+
+    try:
+        pair.start()
+        waiter = pair.copts.waiter
+
+        for _ in range(case['k']):
+            for side in ('c', 's'):
+                h.deliver(side, next(chunker) if chunker else None)
+            h.settle()
+
+        stage = 'done' if waiter.done() else 'pending'
+        labels.add('connect-' + stage)
+
+        if term[0] == 'cclose':
+            h.call(pair.c.close)
+        elif term[0] == 'cabort':
+            h.call(pair.c.abort)
+        elif term[0] == 'sclose':
+            h.call(pair.s.close)
+        elif term[0] == 'sabort':
+            h.call(pair.s.abort)
+        elif term[0] == 'sdisconnect':
+            h.call(pair.s.disconnect, 11, 'bye')
+        elif term[0] == 'cut':
+            h.cut_wire({'eof': None, 'reset': ConnectionResetError(
+                104, 'Connection reset by peer')}[term[1]])
+        elif term[0] == 'timeout':
+            h.advance(200000)
+
+        h.pump(chunker)
+
+        if not pair.c.is_closed():
+            # (a handshake that simply went through: end it now)
+            labels.add('completed-before-the-event')
+            h.call(pair.c.abort)
+            h.pump(chunker)
+
+        if not waiter.done():
+            raise Violation(
+                'hung-waiter', 'the future connect() awaits is still '
+                'pending at quiescence after %s at handshake step %d '
+                '(client connection closed: %s)' %
+                (term, case['k'], pair.c.is_closed()),
+                'hung:connect:' + term[0])
+
+        if not waiter.cancelled() and waiter.exception() is None:
+            labels.add('connect-returned')
+        else:
+            labels.add('connect-raised')
+
+        check_log(log)
+
+        for name, conn in (('client', pair.c), ('server', pair.s)):
+            # pylint: disable=protected-access
+            if conn is not None and conn._channels:
+                raise Violation('channel-left-registered', '%s connection '
+                                'still has channels' % name,
+                                'channel-left:' + name)
+
+        if h.loop_errors:
+            raise Violation('loop-error', repr(h.loop_errors[0])[:400],
+                            'loop-error')
+
+        return CaseResult(sorted(labels), stage == 'pending')
+    finally:
+        pair.close()
+
+
+def connect_cases(tier: str):
+    terms = [['cclose'], ['cabort'], ['sclose'], ['sabort'], ['sdisconnect'],
+             ['cut', 'eof'], ['cut', 'reset'], ['timeout']]
+
+    for k in range(0, 16):
+        for term in terms:
+            for auth in ('password', 'wrong-password'):
+                for chunks in ([], [4000], [7]):
+                    yield {'k': k, 'term': term, 'auth': auth,
+                           'chunks': chunks}
+
+
+FAMILIES += [
+    Family('connect', run_connect, enumerate=connect_cases, exhaustive=True,
+           required={'all': ['connect-pending', 'connect-done',
+                             'connect-raised', 'term:cclose', 'term:cabort',
+                             'auth:wrong-password']},
+           case_timeout=120, timeout_is_violation=True),
+]
